@@ -5,10 +5,12 @@
 package wal
 
 import (
+	"github.com/coreos/etcd/raft/raftpb"
 	uuid "github.com/satori/go.uuid"
 )
 
 var _ uuid.UUID
+var _ raftpb.Entry
 
 // ---------------------------------------------------------------------------------------------
 // C06: key layout. An entry key is <16 bytes group id><8 bytes big-endian index>; hard state and snapshot keys are
@@ -63,14 +65,65 @@ var _ uuid.UUID
 // (a batch applies its operations in order, so a deletion queued after the marker would take it away whenever the follower
 // already had an entry at that index), entries of the same Ready are written after the marker, and the cached last index
 // is reset to the snapshot index (the cache must not keep pointing into the deleted log).
-//@ func (*storage/wal.badgerWAL).writeEntries
+// appending (reference: MemoryStorage.Append - entries below the first index are dropped, the stored log is cut after the last
+// new entry, the last index becomes that entry's). For a contiguous batch: every entry at or above the first index is written,
+// under the key of its own index, with its own encoding, nothing else is written; the cached last index becomes the last
+// entry's index exactly when something was written; the tail behind it is cut (from last+1) exactly when the log was longer.
+//@ func (*storage/wal.badgerWAL).LastIndex
 //@ props C06
 //@ assume
+//@ modifies * except type badgerWAL.cache; type badgerWAL.db; type badgerWAL.groupId; mem[raftpb.Entry]
+//@ func (*storage/wal.badgerWAL).writeEntries
+//@ props C06
+//@ safety UNCLAIMED
+//@ ghost first uint64 = 0
+//@ ghost last uint64 = 0
+//@ ghost keyIdx uint64 = 0
+//@ ghost key []byte = nil
+//@ ghost data []byte = nil
+//@ ghost written int = 0
+//@ ghost cachedLast int = 0
+//@ ghost cut int = 0
+//@ at call badgerWAL).FirstIndex
+//@ set first = $ret0
+//@ end
+//@ at call badgerWAL).LastIndex
+//@ set last = $ret0
+//@ end
+//@ at call badgerWAL).entryKey
+//@ set keyIdx = $arg1
+//@ set key = $ret0
+//@ end
+//@ at call Entry).Marshal
+//@ set data = $ret0
+//@ end
+//@ at call WriteBatch).Set
+//@ requires [C06 entry-under-its-own-key] $arg0 == batch && $arg1 == key && keyIdx == entry.Index && $arg2 == data && entry.Index >= first
+//@ set written = written + 1
+//@ end
+//@ at call (*sync.Map).Store
+//@ requires [C06 cached-last-is-the-last-entry] $arg1.(string) == cacheLastIndexKey && written >= 1 && $arg2.(uint64) == entries[len(entries) - 1].Index
+//@ set cachedLast = cachedLast + 1
+//@ end
+//@ at call badgerWAL).deleteEntriesFromIndex
+//@ requires [C06 tail-cut-right-after-the-last-entry] $arg1 == batch && $arg2 == entries[len(entries) - 1].Index + 1 && last > entries[len(entries) - 1].Index && cachedLast == 1
+//@ set cut = cut + 1
+//@ end
+//@ requires [wal] this != nil && this.db != nil && this.cache != nil && batch != nil
+//@ requires [contiguous: raft hands contiguous batches to the store] forall i int :: 0 <= i && i < len(entries) ==> entries[i].Index == entries[0].Index + i && entries[i].Index < 18446744073709551615 - len(entries)
+//@ ensures [C06 every-kept-entry-written] isnil(ret) && old(len(entries)) > 0 ==> written == ite(old(entries[0].Index) + old(len(entries)) - 1 < first, 0, ite(first > old(entries[0].Index), old(len(entries)) - (first - old(entries[0].Index)), old(len(entries))))
+//@ ensures [C06 last-index-cached] isnil(ret) ==> cachedLast == ite(written >= 1, 1, 0)
+//@ ensures [C06 longer-log-is-cut] isnil(ret) && written >= 1 && last > old(entries[len(entries) - 1].Index) ==> cut == 1
 //@ modifies * except type badgerWAL.cache; type badgerWAL.db
+//@ loop 1
+//@ invariant [C06 written-so-far] written == rangeindex + 1 && cachedLast == 0 && cut == 0
+//@ invariant [kept-entries-at-or-above-first] forall i int :: 0 <= i && i < len(entries) ==> entries[i].Index >= first
+//@ invariant [same-last] len(entries) >= 1 && entries[len(entries) - 1].Index == old(entries[len(entries) - 1].Index)
+//@ invariant [kept-count] len(entries) == ite(first > old(entries[0].Index), old(len(entries)) - (first - old(entries[0].Index)), old(len(entries)))
 //@ func (*storage/wal.badgerWAL).writeHardState
 //@ props C06
 //@ assume
-//@ modifies * except type badgerWAL.cache; type badgerWAL.db
+//@ modifies * except type badgerWAL.cache; type badgerWAL.db; mem[raftpb.Entry]
 // writeSnapshot may raise a cached last index, but must not create one: the snapshot index is the last index only when the
 // log holds nothing behind it, which this function cannot know (a cold cache is filled from the disk by LastIndex)
 //@ func (*storage/wal.badgerWAL).writeSnapshot
@@ -85,7 +138,7 @@ var _ uuid.UUID
 //@ requires [C06 never-seeds-last-index] $arg1.(string) == cacheLastIndexKey ==> lastWasCached == 1
 //@ end
 //@ requires [wal] this != nil && this.cache != nil && batch != nil
-//@ modifies * except type badgerWAL.cache; type badgerWAL.db
+//@ modifies * except type badgerWAL.cache; type badgerWAL.db; mem[raftpb.Entry]
 
 //@ func (*sync.Map).Load
 //@ props C06
@@ -106,7 +159,7 @@ var _ uuid.UUID
 //@ func (*storage/wal.badgerWAL).deleteEntriesFromIndex
 //@ props C06
 //@ assume
-//@ modifies * except type badgerWAL.cache; type badgerWAL.db
+//@ modifies * except type badgerWAL.cache; type badgerWAL.db; mem[raftpb.Entry]
 //@ func (*github.com/dgraph-io/badger/v2.DB).NewWriteBatch
 //@ props C06
 //@ assume
@@ -147,6 +200,7 @@ var _ uuid.UUID
 //@ set cachedLastIdx = $arg2.(uint64)
 //@ end
 //@ requires [wal] this != nil && this.db != nil && this.cache != nil
+//@ requires [contiguous: raft hands contiguous batches to the store (the property's legal call sequences)] forall i int :: 0 <= i && i < len(entries) ==> entries[i].Index == entries[0].Index + i && entries[i].Index < 18446744073709551615 - len(entries)
 //@ ensures [C06 cache-last-set] isnil(ret) && snapshot.Metadata.Index != 0 ==> cachedLast == 1
 //@ ensures [C06 cache-last-after-install] isnil(ret) && snapshot.Metadata.Index != 0 ==> cachedLastIdx == snapshot.Metadata.Index
 //@ modifies *
@@ -251,7 +305,7 @@ var _ uuid.UUID
 //@ func (*storage/wal.badgerWAL).FirstIndex
 //@ props C06 C03
 //@ assume
-//@ modifies * except type badgerWAL.cache; type badgerWAL.db; type badgerWAL.groupId
+//@ modifies * except type badgerWAL.cache; type badgerWAL.db; type badgerWAL.groupId; mem[raftpb.Entry]
 // compaction scan (the real closure runs in place over the assumed Badger iterator, like the range scan of Entries): every key
 // the scan meets below the bound is queued for deletion, and the scan stops only when the iterator is exhausted or the bound is
 // reached (a scan that gives up early leaves entries in front of the snapshot marker: after a reopen the first index is wrong)
